@@ -3202,6 +3202,11 @@ func (gbi *groupByIterator) nextAtIdx(i int) {
 		}
 		if wrapped && i != 0 {
 			gbi.nextAtIdx(i - 1)
+			// The levels above are exhausted: there is nothing left to
+			// intersect with, so stop instead of wrapping forever.
+			if gbi.done {
+				return
+			}
 		}
 		if i == 0 && gbi.filter != nil {
 			gbi.rows[i].row = nr.Intersect(gbi.filter)
